@@ -1,7 +1,7 @@
 SPECIFICATION Spec
 CONSTANTS
   K = 2
-  Progs = {1, 2}
+  Progs = {1, 2, 5}
 INVARIANT Independent
 ACTION_CONSTRAINT Emit
 CHECK_DEADLOCK FALSE
